@@ -38,6 +38,20 @@ CHECKS["C18"] = dict(
     design="5/C18",
 )
 
+CHECKS["C05"] = dict(
+    text="Unbounded Lean theorems: for EVERY string and EVERY way of cutting it into successive appends (and for any pre-existing paragraph "
+    "content) inner_text is exactly the concatenation (text_append, text_appends), and - for strings without U+000D and paragraphs without inline "
+    "children - an ODF 1.2 6.1.2 consumer reads exactly that string from the produced XML (nf_append, nf_appends): no space run, leading/trailing "
+    "space, tab or line break lost or doubled. Correspondence: Paragraph/Span/Header vs the model on all strings over {a,space,tab,newline} up to "
+    "length 6 (8 thorough), all 2-/3-way splits, random rich-alphabet strings, appends interleaved with Span children: node list, text and consumer "
+    "reading compared; model-free oracle = independent lxml text projection and an independent consumer.",
+    note="The consumer semantics (DESIGN.md C05 Reading: text:s/tab/line-break are not collapsible and reset the state) is my reading of 6.1.2, written once "
+    "in Lean and once independently in Python. parse(serialise(x)) = x is lxml's (parameter; the re-parsed text is compared at every case). Inline children "
+    "(spans) are opaque in the model: for them only the text theorem applies, the normal-form clause is checked by the oracle on the real XML.",
+    technique="Lean 4 theorems by induction over an atom abstraction of the node list (tightness invariant), + differential correspondence, exhaustive small scope",
+    design="5/C05",
+)
+
 NOT_YET = {}
 
 
